@@ -54,8 +54,11 @@ type Spec struct {
 	Assumptions []string          `json:"assumptions"`
 	MapPermMax  int               `json:"map_perm_max"`
 	NoReplay    bool              `json:"no_replay"`
+	Solver      string            `json:"solver"` // z3 (4.8.12, default) | z3new (5.1.0) | cvc5
 	ExtraFiles  map[string]string `json:"extra_files"` // overlay path relative to /repo -> file under harness dir
 }
+
+var solverUsed = "z3 4.8.12 (/usr/bin/z3 -in, incremental push/pop)"
 
 type KnownFinding struct {
 	Property string `json:"property"`
@@ -261,11 +264,16 @@ func cmdRun(args []string) int {
 	if ts.QueryMs > 0 {
 		eng.timeoutMs = ts.QueryMs
 	}
+	if *solver == "z3" && spec.Solver != "" {
+		*solver = spec.Solver
+	}
 	switch *solver {
 	case "z3new":
 		eng.solverKind = Z3New
+		solverUsed = "z3 5.1.0 (z3-new -in, incremental push/pop)"
 	case "cvc5":
 		eng.solverKind = CVC5
+		solverUsed = "cvc5 1.0 (--incremental)"
 	}
 	for _, p := range defaultAllowInit {
 		eng.allowInit[p] = true
@@ -768,7 +776,7 @@ func writeEvidence(spec *Spec, tier string, seed int, start time.Time, reports [
 		"outside_claim":       spec.Outside,
 		"queries":             q,
 		"solver_time_s":       st,
-		"solvers":             []string{"z3 4.8.12 (-in, incremental push/pop)"},
+		"solvers":             []string{solverUsed},
 		"entries":             reports,
 		"inconclusive":        problems,
 		"known_findings_hit":  knownHit,
